@@ -1,4 +1,5 @@
 import OpusProofs.SilkSymsDecode
+import OpusProofs.SilkSymsHistory
 /-
   Property C03 — "decoder output conforms to the RFC 6716 reference decoder", bit-stream half, stage 1:
   the SILK symbol layer.  `Opus.SilkSyms.decodePacket` (OpusModel/SilkSyms.lean) is the frozen normative
@@ -97,5 +98,24 @@ theorem silkSyms_pulses_fit_int16 (sig qoff frameLen : Nat) (hs : sig ≤ 2) (c 
 
 example (c : Dec) : ∃ p c', decodePulses 2 1 320 c = (p, c') :=
   ⟨(decodePulses 2 1 320 c).1, (decodePulses 2 1 320 c).2, (Prod.eta _).symm⟩
+
+/-- The symbols read from a packet do not depend on the SILK decoder state left by earlier frames / packets:
+    from any two incoming states (`ec_prevSignalType`, `ec_prevLagIndex`, VAD/LBRR flags, frame counters,
+    `prev_decode_only_middle` of both channels all arbitrary) `decodePacket` yields the same observable result —
+    the same events (every index, pulse, flag, `condCoding`, `rng`, `ec_tell`), redundancy fields and final decoder
+    context for every frame; only the carried state itself (`FrameOut.st`, erased by `obsPacket`) may differ.
+    (Simulation argument: the conditional-coding memory of a channel is read only under `CODE_CONDITIONALLY`,
+    and whenever a frame can be coded conditionally the previous frame of that channel was decoded from the same
+    packet.)  This is what justifies evaluating the reference from the zero state for every packet. -/
+theorem silkSyms_symbols_history_free (fs : Nat) (decodeFec prevModeCelt : Bool) (st st' : SilkSt) (pkt : Bytes) :
+    obsPacket (decodePacket fs decodeFec prevModeCelt st pkt) =
+    obsPacket (decodePacket fs decodeFec prevModeCelt st' pkt) :=
+  decodePacket_hist fs decodeFec prevModeCelt st st' pkt
+
+/-- non-vacuity: `obsPacket` keeps the whole record of a decoded stereo packet (only the carried state is erased) -/
+example : (match obsPacket (decodePacket 48000 false false
+             { ch0 := { ecPrevSignalType := 2, ecPrevLagIndex := 1000 }, prevDecodeOnlyMiddle := 1 }
+             [0x4c, 0x9a, 0x3b, 0x71, 0x05, 0xe0, 0x2f]) with
+           | .ok (some [.silk 1 o]) => decide (o.evs.length ≥ 7) | _ => false) = true := by decide +kernel
 
 end OpusProps.C03
